@@ -22,7 +22,7 @@ FORMAT = ("script [policy 0=LRU 1=LFU 2=FIFO; max_size; ttl (-1 none); sh; n cal
           "with r: -1 no poll, 0 pending, 1 Ok, 2 Err(Inner), 5 panicked, 9 nothing to poll")
 RULE = ("random histories over 2-5 keys and two services (private or shared store), three policies, max_size 0..4, TTL none/0/short/long with advances "
         "landing exactly on, just before and just after the TTL, overlapping misses (also on one key), ok (unique serial values) / err / panic / never-completing inner "
-        "calls, cancellations; calls through fresh clones and through one long-lived service value; a few capacities that never fill (1000, 100000); large stores (max_size 5..33, up to 2*max_size+2 keys, "
+        "calls, cancellations; calls through fresh clones and through one long-lived service value; a few capacities that never fill (1000, 100000) and max_size = usize::MAX, usize::MAX/2 (nothing between 2^26 and 2^62 is ever driven); large stores (max_size 5..33, up to 2*max_size+2 keys, "
         "skewed access so that frequencies and recencies differ, >8 entries) with long sequential histories; TTLs with sub-millisecond parts (999, 1500, 20000 us), "
         "1 s, 1 h and u64::MAX us with microsecond advances and jumps landing on ttl-1us / ttl / ttl+1us; a nanosecond clock with TTLs such as 1500 ns and lookups at ttl-1ns / ttl / ttl+1ns / inside the same microsecond; stores of 64..130 entries over up to 160 of 240 keys (every insert evicts; sampled victim searches with a sample below 130 show); LFU with two hot keys used 14..303 times (wrapping or saturating counters); all short histories over a tiny alphabet in thorough; "
         "non-trivial = an eviction, an expiry or a hit happened")
@@ -210,6 +210,9 @@ def corpus():
     # (review 2, D3) LFU, key A looked up 254 times, key B 256 times, then a third key arrives: A must go (an 8-bit counter has wrapped for B)
     import random as _r
     out.append(hot_script(_r.Random(3), 254, 256))
+    # (fix b8ecd4c) max_size = usize::MAX / usize::MAX/2: the layer builds, everything is stored, nothing evicted
+    for q, (pol_, sh_) in enumerate([(0, 0), (1, 0), (2, 0), (0, 1), (1, 2), (2, 1)]):
+        out.append(unbounded_script(_r.Random(40 + q), pol_, U64 if q % 2 == 0 else U64 // 2, sh_))
     # keys above 119 (op 7), two stores
     out.append(mk(2, 2, -1, 0, 5, [(W2, 0, wide2(0, 239)), (K, 0, 1), (P, 0, 0), (W2, 1, wide2(1, 120, 1)), (K, 1, 2), (P, 1, 0),
                                    (W2, 2, wide2(0, 119)), (K, 2, 3), (P, 2, 0), (W2, 3, wide2(0, 200)), (K, 3, 4), (P, 3, 0), (W2, 4, wide2(0, 239)), (P, 4, 0)]))
@@ -515,6 +518,42 @@ def nano_script(rng):
     return mk(pol, ms, ttl, sh, i, evs)
 
 
+def unbounded_script(rng, pol=None, ms=None, sh=None):
+    """max_size = usize::MAX or usize::MAX/2 (ONLY these two above 2^26): building the layer must not reserve max_size
+    entries; everything is stored, nothing is ever evicted"""
+    pol = rng.randrange(3) if pol is None else pol
+    ms = rng.choice([U64, U64 // 2]) if ms is None else ms
+    sh = rng.choice([0, 1, 2]) if sh is None else sh
+    ttl = rng.choice([-1, -1, 20])
+    nkeys = rng.randint(2, 6)
+    keys = rng.sample(range(NK2), nkeys)
+    evs, i, v = [], 0, 300
+    pending = []
+    for _ in range(rng.randint(6, 18)):
+        k = rng.choice(keys)
+        svc = rng.randrange(2) if rng.random() < 0.4 else 0
+        evs.append((W2, i, wide2(svc, k, rng.randrange(2))))
+        y = rng.random()
+        if y < 0.75:
+            v += 1
+            evs += [(K, i, v if rng.random() < 0.9 else 0), (P, i, 0)]
+        elif y < 0.9:
+            pending.append(i)
+        else:
+            evs.append((P, i, 0))
+        i += 1
+        if pending and rng.random() < 0.4:
+            j = pending.pop(0)
+            v += 1
+            evs += [(K, j, v), (P, j, 0)]
+        if ttl > 0 and rng.random() < 0.2:
+            evs.append((A, rng.choice([1, 20, 21]), 0))
+    for k in keys:
+        evs += [(W2, i, wide2(0, k, 0)), (P, i, 0)]
+        i += 1
+    return mk(pol, ms, ttl, sh, i, evs)
+
+
 def overlap_script(rng):
     """several misses in flight at once, many on one key, completed and polled in random order"""
     pol = rng.randrange(3)
@@ -589,6 +628,7 @@ def generate(rng, tier):
         out += [big_script(rng, rng.choice([60, 120, 200])) for _ in range(180)]
         out += [ttl_script(rng) for _ in range(250)]
         out += [nano_script(rng) for _ in range(120)]
+        out += [unbounded_script(rng) for _ in range(60)]
         out += [huge_script(rng) for _ in range(14)]
         out += [hot_script(rng) for _ in range(8)]
         for pol in range(3):
@@ -600,6 +640,7 @@ def generate(rng, tier):
         out += [big_script(rng, rng.choice([60, 120, 200, 300])) for _ in range(1200)]
         out += [ttl_script(rng) for _ in range(3000)]
         out += [nano_script(rng) for _ in range(1500)]
+        out += [unbounded_script(rng) for _ in range(600)]
         out += [huge_script(rng, rng.choice([14, 30])) for _ in range(300)]
         out += [hot_script(rng) for _ in range(150)]
         for pol in range(3):
@@ -868,7 +909,7 @@ def classify(s, t):
     tu = ttl_us_of(ttl, sh)
     unit = unit_of(sh)
     out = [["lru", "lfu", "fifo"][pol % 3],
-           "max_size_%s" % (ms if ms <= 4 else ("5_8" if ms <= 8 else ("9_16" if ms <= 16 else ("17_33" if ms <= 33 else ("34_130" if ms <= 130 else "huge"))))),
+           "max_size_%s" % (ms if ms <= 4 else ("5_8" if ms <= 8 else ("9_16" if ms <= 16 else ("17_33" if ms <= 33 else ("34_130" if ms <= 130 else ("huge" if ms <= 10 ** 6 else "usize_max")))))),
            "ttl_%s" % ("none" if tu < 0 else ("zero" if tu == 0 else ("submilli" if tu % unit else ("ge_1s" if tu >= 1000 * unit else "finite")))),
            "store_%s" % ("private" if mode_of(sh) == 0 else "shared")]
     if unit == 10 ** 6:
